@@ -108,8 +108,9 @@ def jobs(tier: str):
     consts_menu = [[], [("n", "0")], [("n", "3")]] if tier != "quick" else [[]]
 
     def gen():
+        core3 = set(CMP[:6] + CMP[14:17] + AGG[:4])  # three literals only from a 13-literal core (math is slow)
         for lits in subsets(MENU, 1, kmax):
-            if tier != "quick" and len(lits) == 3 and sum(1 for l in lits if l in AGG) > 2:
+            if len(lits) == 3 and (not set(lits) <= core3 or sum(1 for l in lits if l in AGG) > 2):
                 continue
             text = " ".join(lits)
             uses_agg = "s(Z)" in text or "t(Z)" in text
@@ -118,6 +119,8 @@ def jobs(tier: str):
                     continue
                 body = "; ".join(binders + list(lits))
                 for cname, ctx in CONTEXTS:
+                    if len(lits) == 3 and cname not in ("rX", "c", "w"):
+                        continue
                     if tier == "quick" and cname not in ("rX", "rN", "w") and not (cname.startswith("hc_") and len(lits) == 1):
                         continue
                     if cname.startswith("hc_") and bname == "none":
